@@ -165,6 +165,18 @@ fn probe(a: &[String]) {
                 Err(e) => println!("ERR {e}"),
             }
         }
+        // `probe publish <full text>`: direct serialisation next to the publish plugin's text of the same message's JSON
+        Some("publish") => {
+            let input = unesc(&a[1]);
+            match swift_mt_message::SwiftParser::parse_auto(&input) {
+                Ok(v) => {
+                    let j = serde_json::to_value(&v).unwrap();
+                    println!("JSON    {j}");
+                    println!("PUBLISH {:?}", plug::publish_json(&j));
+                }
+                Err(e) => println!("ERR {e}"),
+            }
+        }
         _ => usage(),
     }
 }
